@@ -509,3 +509,69 @@ package zygo
 // error, a non-nil error returned by a nested generator call must lead to a
 // non-nil error result ("errors are never swallowed into a successful result").
 //@ propagatesfile C05 generator.go Generate.*|generateSyntaxQuote.*|buildSexpFun|Apply|MakeHash|ParseFile
+
+// ===========================================================================
+// C04  a successful evaluation leaves nothing behind
+// ===========================================================================
+// (a) static effect of the simple VM instructions on the three stacks and pc
+//@ macro vmEff(env *Zlisp, dData int, dScope int, dPc int) bool = env.datastack.tos == old(env.datastack.tos) + dData && env.linearstack.tos == old(env.linearstack.tos) + dScope
+//@ |  && env.pc == old(env.pc) + dPc && env.addrstack.tos == old(env.addrstack.tos) && env.curfunc == old(env.curfunc) && env.linearstack == old(env.linearstack)
+
+//@ func (*Stack).GetExpr
+//@ requires typeinv[Stack] wfs(stack)
+//@ requires n >= 0
+//@ C04 pure
+//@ C04 ensures r1 != nil ==> n > stack.tos || n < 0
+
+//@ func (*Stack).PopScope
+//@ requires typeinv[Stack] wfs(stack)
+//@ C04 modifies stack.tos, stack.elements, elems(stack.elements)
+//@ C04 ensures ok: r0 == nil ==> wfs(stack) && stack.tos == old(stack.tos) - 1
+//@ C04 ensures underflow: r0 != nil ==> stack.tos == old(stack.tos)
+
+//@ func (*Zlisp).NewNamedScope
+//@ C04 pure
+//@ C04 ensures fresh(r0) && r0.Map != nil && !r0.IsFunction && !r0.IsGlobal
+
+//@ func NewSourceLazyArg
+//@ C04 pure
+//@ C04 ensures fresh(r0)
+
+//@ func (PushInstr).Execute
+//@ requires typeinv[Zlisp] distinctStacks(env)
+//@ C04 ensures r0 == nil && vmEff(env, 1, 0, 1)
+
+//@ func (PushLazyArgInstr).Execute
+//@ requires typeinv[Zlisp] distinctStacks(env)
+//@ C04 ensures r0 == nil && vmEff(env, 1, 0, 1)
+
+//@ func (PopInstr).Execute
+//@ requires typeinv[Zlisp] distinctStacks(env)
+//@ C04 ensures r0 == nil ==> vmEff(env, ite(old(env.datastack.tos) >= 0, -1, 0), 0, 1)
+
+//@ func (DupInstr).Execute
+//@ requires typeinv[Zlisp] distinctStacks(env)
+//@ C04 ensures ok: r0 == nil ==> vmEff(env, 1, 0, 1)
+//@ C04 ensures failed: r0 != nil ==> vmEff(env, 0, 0, 0)
+
+//@ func (AddScopeInstr).Execute
+//@ requires typeinv[Zlisp] distinctStacks(env)
+//@ C04 ensures r0 == nil && vmEff(env, 0, 1, 1)
+
+//@ func (AddFuncScopeInstr).Execute
+//@ requires typeinv[Zlisp] distinctStacks(env)
+//@ C04 ensures r0 == nil && vmEff(env, 0, 1, 1)
+
+//@ func (RemoveScopeInstr).Execute
+//@ requires typeinv[Zlisp] distinctStacks(env)
+//@ C04 ensures ok: r0 == nil ==> vmEff(env, 0, -1, 1)
+
+// (b) the compiler: every AddInstruction appends exactly one instruction; quote
+// emits exactly one push.
+//@ func (*Generator).AddInstruction
+//@ C04 modifies gen.instructions, elems(gen.instructions)
+//@ C04 ensures len(gen.instructions) == old(len(gen.instructions)) + 1
+
+//@ func (*Generator).GenerateQuote
+//@ C04 ensures one-value: r0 == nil ==> len(gen.instructions) == old(len(gen.instructions)) + 1
+//@ C04 loop 0 invariant len(gen.instructions) == old(len(gen.instructions)) + rangeindex + 1
